@@ -129,6 +129,8 @@ func (g *Gen) run() {
 	}
 	// the entry byte memory is declared up front so that replay queries can read parameter contents
 	g.entryByteMem = g.memSym(entry, types.Typ[types.Uint8], "", KInt)
+	// package-level variables and arrays have the small ids 100+tag; everything allocated at run time is above
+	g.emit("(assert (and (> " + g.brk(entry) + " 1000000) (> " + g.abrk(entry) + " 1000000)))")
 	for _, fv := range fn.FreeVars {
 		v := g.freshVal("fv_"+fv.Name(), fv.Type())
 		g.typeFacts(entry, v, "true")
@@ -181,6 +183,9 @@ func (g *Gen) run() {
 				unsup("uses unknown axiom %s", ax)
 			}
 		}
+	}
+	if g.isPkgInit() && g.hooks != nil && g.hooks.sliceGlobals != nil {
+		g.computeInitSlice(g.hooks.sliceGlobals)
 	}
 	g.findLoops()
 	order := g.topoOrder()
@@ -661,6 +666,13 @@ func (g *Gen) block(b *ssa.BasicBlock) {
 		g.vals[phi] = g.mergeVals(phi.Type(), "phi_"+phi.Name(), guards, vs)
 	}
 	for _, in := range b.Instrs {
+		if g.sliceKeep != nil && !g.sliceKeep[in] {
+			switch in.(type) {
+			case *ssa.If, *ssa.Jump, *ssa.Return:
+			default:
+				continue
+			}
+		}
 		g.curInstr = in
 		g.instr(st, in)
 		if _, ok := in.(*ssa.Panic); ok {
@@ -765,6 +777,21 @@ func (g *Gen) backEdge(b *ssa.BasicBlock, succIdx int, li *loopInfo, st *State) 
 	pos := token.NoPos
 	if len(li.head.Instrs) > 0 {
 		pos = li.head.Instrs[0].Pos()
+	}
+	// report the position of the last positioned instruction on the way into the back edge
+	for blk := b; blk != nil; {
+		found := false
+		for k := len(blk.Instrs) - 1; k >= 0; k-- {
+			if p := blk.Instrs[k].Pos(); p.IsValid() {
+				pos = p
+				found = true
+				break
+			}
+		}
+		if found || len(blk.Preds) != 1 {
+			break
+		}
+		blk = blk.Preds[0]
 	}
 	for _, cl := range g.loopInvs(li) {
 		for _, part := range splitGoal(g.P.expand(cl.E)) {
@@ -910,4 +937,81 @@ func (g *Gen) loopFrame(before, head *State, li *loopInfo) {
 			g.emit(fmt.Sprintf("(assert (forall ((p Int)) (! (=> %s (= (select %s p) (select %s p))) :pattern ((select %s p)))))", and(conds...), nw, old, nw))
 		}
 	}
+}
+
+
+// computeInitSlice keeps only the instructions of a package initialiser that contribute to the given
+// package-level variables (stores into them, the values stored, and stores into temporaries those
+// values are built from).  Everything else in the initialiser is skipped: it cannot assign these
+// variables (checked separately: `axiom-stable`, and no kept variable is passed to a call here).
+func (g *Gen) computeInitSlice(names map[string]bool) {
+	targets := map[*ssa.Global]bool{}
+	for _, m := range g.fn.Pkg.Members {
+		if gl, ok := m.(*ssa.Global); ok && names[gl.Name()] {
+			targets[gl] = true
+		}
+	}
+	keep := map[ssa.Instruction]bool{}
+	keptAllocs := map[*ssa.Alloc]bool{}
+	var addVal func(v ssa.Value)
+	addInstr := func(in ssa.Instruction) {
+		if keep[in] {
+			return
+		}
+		keep[in] = true
+		if a, ok := in.(*ssa.Alloc); ok {
+			keptAllocs[a] = true
+		}
+		for _, op := range in.Operands(nil) {
+			if *op != nil {
+				addVal(*op)
+			}
+		}
+	}
+	addVal = func(v ssa.Value) {
+		switch x := v.(type) {
+		case *ssa.Global:
+			if x.Pkg == g.fn.Pkg && !targets[x] {
+				targets[x] = true
+			}
+		case ssa.Instruction:
+			if x.Parent() == g.fn {
+				addInstr(x)
+			}
+		}
+	}
+	for _, b := range g.fn.Blocks {
+		for _, in := range b.Instrs {
+			if iff, ok := in.(*ssa.If); ok {
+				addVal(iff.Cond)
+			}
+		}
+	}
+	for changed := true; changed; {
+		n0, t0 := len(keep), len(targets)
+		for _, b := range g.fn.Blocks {
+			for _, in := range b.Instrs {
+				st, ok := in.(*ssa.Store)
+				if !ok {
+					if c, ok := in.(*ssa.Call); ok {
+						// a call that receives one of the variables could write it: refuse
+						for _, a := range c.Common().Args {
+							if gl := rootGlobal(a); gl != nil && targets[gl] {
+								unsup("package variable %s is passed to a call inside the initialiser", gl.Name())
+							}
+						}
+					}
+					continue
+				}
+				if gl := rootGlobal(st.Addr); gl != nil && targets[gl] {
+					addInstr(st)
+				}
+				if ra := rootAlloc(st.Addr); ra != nil && keptAllocs[ra] {
+					addInstr(st)
+				}
+			}
+		}
+		changed = len(keep) != n0 || len(targets) != t0
+	}
+	g.sliceKeep = keep
 }
